@@ -2614,6 +2614,7 @@ def r7(pid):
                 return M.publish(b"s", text, q_, pid_[0], ps=[(11, k + 1)])
             st.ev("dropstream %d" % subs[0]), st.deliver(msg(0, b"for-dead-0")), st.deliver(msg(0, b"for-dead-0-again", 0) )
             st.ev("dropstream %d" % subs[1]), st.deliver(msg(1, b"for-dead-1")), st.deliver(msg(2, b"for-live-2")), st.deliver(msg(3, b"for-live-3"))
+            st.ev("pollstream %d" % subs[2]), st.ev("pollstream %d" % subs[2]), st.ev("pollstream %d" % subs[3])
             st.ev("dropstream %d" % subs[2]), st.deliver(msg(2, b"for-dead-2")), st.deliver(msg(3, b"for-live-3-again"))
             if q == 2:
                 for k in range(21, pid_[0] + 1):
@@ -2621,6 +2622,31 @@ def r7(pid):
             for _ in range(3):
                 st.ev("pollstream %d" % subs[3])
             out.append(case("streams-dropped-in-turn-q%d" % q, st.script(), ["dropped-stream", "in-turn"]))
+    if pid == "C16":
+        # a write the transport has blocked (Pending, waker kept), the task polled again for other reasons - inbound bytes, a new
+        # request, a sweep, a spurious poll - before the transport takes another byte: the write just stays pending
+        for accept in (0, 2, 5):
+            for why in ("inbound", "request", "sweep", "fpoll", "two"):
+                st = S()
+                g = st.ping()
+                st.poll(g)
+                st.ev("wblock %d" % accept)
+                x = st.pub(q=1, payload=b"blocked")
+                st.poll(x)
+                if why in ("inbound", "two"):
+                    st.deliver(M.pingresp())
+                if why in ("request", "two"):
+                    y = st.pub(q=0, payload=b"queued behind")
+                    st.poll(y)
+                if why == "sweep":
+                    st.ev("sweep"), st.ev("sweep")
+                if why == "fpoll":
+                    st.ev("fpoll %d" % x), st.ev("fpoll %d" % g)
+                st.ev("wunblock")
+                st.deliver(M.puback(1)), st.poll(x), st.poll(g), st.ev("sweep")
+                c_ = case("blocked-write-repolled-%d-%s" % (accept, why), st.script(), ["blocked-repoll"])
+                c_["model"] = False
+                out.append(c_)
     if pid == "C17":
         # acknowledgements that overtake older handshakes take nothing but their own entry out of the queue
         for order in ([2], [3, 1], [2, 3], [4], [3], [4, 2]):
